@@ -548,6 +548,12 @@ def run_C12(run):
                 StepAxes={"child", "attribute", "self", "descendant", "descendant-or-self"},
                 TestKinds={"any", "node", "text"}, TestNames={"a"})
     r = run.tlc("MC_VM", vm, invariants=("VMRefines", "VMOrdered", "Emit"), name="vm-flat-ordered")
+    # VERDICT: for flat paths the model sequence is the denotation in document order (TLC-proved); the engine must deliver
+    # exactly that sequence, in the abbreviated and in the unabbreviated spelling
+    keep, run.keep = run.keep, True
+    stats, ms = run.replay(r["outfile"], kind="vm-seq", render="both", stage="vm-flat-order")
+    run.mismatches += ms
+    run.keep = keep
     stats, drift = run.replay(r["outfile"], kind="vm", render="full", stage="vm-flat-conformance")
     run.drift = getattr(run, "drift", []) + drift
     # flat paths: exact document order; every node-set expression: protocol
